@@ -1,4 +1,5 @@
 import RecipeGrid.Lemmas.Fold
+import RecipeGrid.Props.C08
 /-! C08.1 (with C07 for the inlining pass): whatever description is accepted by elaboration, the inlining pass of
     `compile` never fails (`list.remove` finds the definition, the definition block exists, the sub recipe and its
     reference have the expected shape) and its result passes the `Recipe` validity check.  Hence no undocumented
@@ -87,5 +88,86 @@ theorem compile_ok_valid (srcs : List Str) (bs : List Block) (h : compile srcs =
       simp only [hf, hv, if_true] at h
       cases h
       exact hv
+
+/-- the result is structurally valid (`C03.ValidS`: every embedded copy IS an earlier sub recipe root), which is
+    the hypothesis under which scaling keeps validity (`C03.scale_valid`, C08.2) -/
+theorem compile_validS (srcs : List Str) (bs : List Block) (h : compile srcs = .ok bs) : C03.ValidS [] bs := by
+  unfold compile elabBlocks at h
+  cases hp : parseAll 0 srcs with
+  | error e =>
+    rw [hp] at h
+    have : e = .ok bs := h
+    rcases parseAll_error srcs 0 e hp with ⟨b, hb⟩ | ⟨b, hb⟩ <;> rw [hb] at this <;> cases this
+  | ok asts =>
+    rw [hp] at h
+    change (match compileBlocks 0 {} asts with
+      | .error e => e
+      | .ok (blocks, st) => _) = _ at h
+    cases hc : compileBlocks 0 {} asts with
+    | error e =>
+      rw [hc] at h
+      have : e = .ok bs := h
+      exact absurd (by rw [hc, this]) ((C01.elab_no_other_error asts).2.2.2 bs)
+    | ok p =>
+      obtain ⟨bs0, st⟩ := p
+      rw [hc] at h
+      obtain ⟨bs', outs', hf⟩ := foldAll_ok asts bs0 st hc
+      have hv := foldAll_valid asts bs0 st hc bs' outs' hf
+      simp only [hf, hv, if_true] at h
+      cases h
+      exact validS_of_scoped _ (foldAll_scoped asts bs0 st hc _ outs' hf)
+
+/-- hence a compiled recipe can be scaled and re-constructed: `Recipe.scale` never raises on it -/
+theorem compile_scale_ok (srcs : List Str) (bs : List Block) (h : compile srcs = .ok bs) (k : Num) :
+    mkRecipes (scaleBlocks k bs) = .ok (scaleBlocks k bs) :=
+  C03.scale_mkRecipes_ok k bs (compile_validS srcs bs h)
+
+/-- in the words of C08.4: every reference target met while walking the compiled recipe is `==` to a sub recipe root
+    at an earlier position -/
+theorem compile_refsResolve (srcs : List Str) (bs : List Block) (h : compile srcs = .ok bs) : RefsResolve bs := by
+  rw [← mkRecipes_ok_iff]
+  simp [mkRecipes, compile_ok_valid srcs bs h]
+
+-- ================================================================ non-vacuity: a concrete two-block program
+section Examples
+private def str (s : Str) : AString := [.sub 0 s]
+/-- block 0: `A := mix(FIG)`, `B := heat(A)`, `C = serve(B, RYE)`; block 1: `eat(C)`: two nested definitions are
+    folded, the cross-block reference is not -/
+private def prog : List (List AStmt) :=
+  [[ ⟨.step (str ['m','i','x']) [.ref (str ['F','I','G']) none], some [str ['A']], true⟩,
+     ⟨.step (str ['h','e','a','t']) [.ref (str ['A']) none], some [str ['B']], true⟩,
+     ⟨.step (str ['s','e','r','v','e']) [.ref (str ['B']) none, .ref (str ['R','Y','E']) none], some [str ['C']], false⟩ ],
+   [ ⟨.step (str ['e','a','t']) [.ref (str ['C']) none], none, false⟩ ]]
+
+/-- evaluated: the loop succeeds, [3, 1] roots become [1, 1], the result passes the check, and the remaining
+    reference of block 1 holds a copy of the (rewritten) root of block 0 -/
+example : (match compileBlocks 0 {} prog with
+    | .ok (bs, st) =>
+      match foldAll st.outputs.length 0 bs st.outputs with
+      | .ok ([[c], [.step _ [.reference c' 0 _]]], _) =>
+        decide (bs.map List.length = [3, 1] ∧ st.outputs.map NamedOutput.canBeInlined = [true, true, false] ∧ c' = c) &&
+          checkBlocks [] [[c], [.step [] [.reference c' 0 Amount.whole]]]
+      | _ => false
+    | .error _ => false) = true := by decide +kernel
+
+private theorem prog_elab : ∃ bs st, compileBlocks 0 {} prog = .ok (bs, st) := by
+  cases h : compileBlocks 0 {} prog with
+  | ok p => exact ⟨p.1, p.2, rfl⟩
+  | error e =>
+    have : (compileBlocks 0 {} prog).toBool = true := by decide +kernel
+    rw [h] at this; cases this
+
+/-- the hypotheses of the theorems are satisfiable -/
+example : ∃ bs st bs' outs', compileBlocks 0 {} prog = .ok (bs, st) ∧
+    foldAll st.outputs.length 0 bs st.outputs = .ok (bs', outs') ∧ checkBlocks [] bs' = true ∧ Scoped bs'.flatten := by
+  obtain ⟨bs, st, h⟩ := prog_elab
+  obtain ⟨bs', outs', hf⟩ := foldAll_ok prog bs st h
+  exact ⟨bs, st, bs', outs', h, hf, foldAll_valid prog bs st h bs' outs' hf, foldAll_scoped prog bs st h bs' outs' hf⟩
+
+/-- the same program from source text, through `compile`: accepted, [1, 1] roots, valid, no internal error -/
+example : (match compile ["A := MIX(FIG)\nB := HEAT(A)\nC = SERVE(B, RYE)".toList, "EAT(C)".toList] with
+    | .ok bs => bs.map List.length == [1, 1] && checkBlocks [] bs
+    | _ => false) = true := by decide +kernel
+end Examples
 
 end RG.C08
